@@ -118,7 +118,33 @@ func errorsHandled(r *Run) {
 					return
 				}
 				k := fnName(fn) + "|" + calleeName(c.Common())
-				if why, ok := reviewedDrops[k]; ok {
+				why, ok := reviewedDrops[k]
+				if !ok {
+					// the same drop moved into an unexported helper that only the reviewed function calls
+					root := fn
+					for root.Parent() != nil {
+						root = root.Parent()
+					}
+					if sites, exact := p.staticCallSites(root); exact && len(sites) > 0 {
+						all := true
+						w := ""
+						for _, cs := range sites {
+							caller := cs.Parent()
+							for caller.Parent() != nil {
+								caller = caller.Parent()
+							}
+							w2, ok2 := reviewedDrops[fnName(caller)+"|"+calleeName(c.Common())]
+							if !ok2 {
+								all = false
+							}
+							w = w2
+						}
+						if all {
+							why, ok = w+" (in a helper only that function calls)", true
+						}
+					}
+				}
+				if ok {
 					if !seenOK[k] {
 						seenOK[k] = true
 						r.Ok("errors-handled", k+" (reviewed drop)", in.Pos(), why)
